@@ -226,7 +226,7 @@ def validate(ctx, traces, hashobs, label, batch=400):
                           jvm_opts=["-Xmx8g"])
         path.unlink()
         if res.violated or res.error:
-            raise MachineryError("CurveTrace failed:\n" + res.stdout[-4000:])
+            raise MachineryError("CurveTrace failed:\n" + vcommon.err_excerpt(res.stdout))
         states += res.distinct
         for obj in res.printed():
             if "failed" in obj:
